@@ -296,6 +296,83 @@ func genAliasSetGeneric(r *prng.R) *aliasSet {
 	return as
 }
 
+// genAliasSetSiblings: aliases that share a prefix and continue once with a parameter and once with a literal token
+// ("die Bilanz <a> <b>", "die Bilanz <a> - <b>"): at the call site the parameter alternative may not be able to take
+// the tokens that follow ("- (1 plus 2)" is no single argument) while the literal alternative can — every alias must
+// stay callable with every form of argument, whatever else is declared.
+func genAliasSetSiblings(r *prng.R) *aliasSet {
+	as := &aliasSet{Tree: &simdisk.Tree{Files: map[string][]byte{}}, Root: "haupt.ddp"}
+	as.Tree.Files["aus.ddp"] = []byte(ausModule)
+	prefix := prng.Pick(r, []string{"die Bilanz", "der Saldo von", "verrechne"})
+	seps := []string{"", "-", "und", "-"}
+	p := r.Perm(len(seps))
+	n := r.Range(2, 3)
+	type variant struct{ name, alias, sep string }
+	var vs []variant
+	seen := map[string]bool{}
+	for _, k := range p {
+		if len(vs) == n || seen[seps[k]] {
+			continue
+		}
+		seen[seps[k]] = true
+		sep := seps[k]
+		alias := prefix + " <a> <b>"
+		if sep != "" {
+			alias = prefix + " <a> " + sep + " <b>"
+		}
+		vs = append(vs, variant{fmt.Sprintf("v%d", len(vs)), alias, sep})
+	}
+	as.ExpectDup = r.Chance(0.2)
+	fn := func(v variant, name string, public bool) string {
+		pub := ""
+		if public {
+			pub = "öffentliche "
+		}
+		return fmt.Sprintf("Die %sFunktion f_%s mit den Parametern a und b vom Typ Zahl und Zahl, gibt eine Zahl zurück, macht:\n\tGib a plus b zurück.\nUnd kann so benutzt werden:\n\t\"%s\"\n\n", pub, name, v.alias)
+	}
+	var root strings.Builder
+	root.WriteString("Binde \"aus\" ein.\n\n")
+	for i, v := range vs {
+		if r.Chance(0.3) {
+			file := fmt.Sprintf("m_%s", v.name)
+			as.Tree.Files[file+".ddp"] = []byte("Binde \"aus\" ein.\n\n" + fn(v, v.name, true))
+			fmt.Fprintf(&root, "Binde \"%s\" ein.\n\n", file)
+		} else {
+			root.WriteString(fn(v, v.name, false))
+		}
+		if as.ExpectDup && i == 0 {
+			root.WriteString(fn(v, v.name+"_nochmal", false))
+		}
+	}
+	if !as.ExpectDup {
+		root.WriteString("Die Zahl x ist 4.\n")
+		args := []string{"10", "x", "-3", "(1 plus 2)", "(x mal 2)", "-x"}
+		k := 0
+		for _, v := range vs {
+			for c := 0; c < 3; c++ {
+				a, b := prng.Pick(r, args[:2]), prng.Pick(r, args)
+				if c == 0 {
+					b = "(1 plus 2)" // the form a parameter can never take after a literal "-"
+				}
+				call := prefix + " " + a + " " + b
+				if v.sep != "" {
+					call = prefix + " " + a + " " + v.sep + " " + b
+				}
+				fmt.Fprintf(&root, "Die Zahl e%d ist %s.\n", k, call)
+				k++
+				as.Calls++
+			}
+		}
+	}
+	as.Tree.Files["haupt.ddp"] = []byte(root.String())
+	var al []string
+	for _, v := range vs {
+		al = append(al, v.alias)
+	}
+	as.Desc = fmt.Sprintf("sibling continuations: %q, duplicate=%t", al, as.ExpectDup)
+	return as
+}
+
 func defaultLit(t string) string {
 	switch t {
 	case "Text":
@@ -425,6 +502,9 @@ func checkC20(tier string) int {
 		}
 		if n%6 == 4 {
 			as = genAliasSetGeneric(r)
+		}
+		if n%6 == 1 {
+			as = genAliasSetSiblings(r)
 		}
 		j := fwproto.Job{ID: n, Tree: as.Tree, Root: as.Root, Source: true}
 		j.Steps = []fwproto.Step{{Fresh: true}}
